@@ -139,6 +139,9 @@ def parseUtxo? (s : String) : Option UTXO :=
   match s.splitOn ":" with
   | [t, v, sc, sa] => do
     pure { txid := (← hexDec t), vout := (← v.toNat?), script := (← optHex? sc), sats := (← sa.toNat?) }
+  | [t, v, sc, sa, _seq] => do
+    -- the supplier's record may carry a sequence number: Tx.FromUTXOs does not look at it
+    pure { txid := (← hexDec t), vout := (← v.toNat?), script := (← optHex? sc), sats := (← sa.toNat?) }
   | _ => none
 
 def parseHist? (s : String) : Option (List Response) :=
